@@ -101,3 +101,130 @@ Example C12_agreeing_example :
   all_in_fragment [(a_lua, src_ok)] = true /\
   forallb (C12_consistent_at [(a_lua, src_ok)] a_lua) (bind_file (chunk_of src_ok)) = true.
 Proof. vm_compute. repeat split; reflexivity. Qed.
+
+(* ================================================================== composition (agent c12-compose)
+   Proofs/ComposeBind*.v: the position resolver (C05_define_local_partial) and the traversal resolver
+   (C06_refs_local_laid_partial) composed.  Guards (all boolean) as in Properties/C06.v:
+     bind_guard W P = in_fragment P && laid2_b W P && no_repoint P (= core_guards_b W P, the guard of C05 alone;
+                      tb_shape and laid_b W follow from it, see Properties/C06.v);
+     var_guard P d  = every occurrence the binder gives the declaration d carries no class tag (classB_ok) and no
+                      occurrence of its name carries CB3 / CB4 (classA_ok);
+     occ_request_guard W files f o = file f parses, bind_guard, occ_guard on the occurrence o under the cursor, and o
+                      stands in the text (ident_at);
+     var_request_guard W files f d = the same for every occurrence the binder gives the declaration d (the clauses
+                      re-ask at those occurrences); request_guard W files f = the same for every occurrence of the file.
+   Missing for C12_full: globals and the refuted classes; ident_at is a checked guard, not derived from the lexer. *)
+From LH Require Import Proofs.PositionBindWitness Proofs.ComposeBind Proofs.ComposeBindText Proofs.ComposeBindRun.
+
+(* clause 1, model level: every reference of the cursor's occurrence resolves via definition - at every cursor column
+   of the reference - to the declaration the cursor's occurrence resolves to *)
+Theorem C12_clause1_model_partial : forall W P w f o d col,
+  bind_guard W P = true -> In o (bind_file P) -> s_bind o = BLocal d -> var_guard P d = true ->
+  (sc (s_loc o) <= col <= ec (s_loc o))%Z ->
+  exists l, references_at MRefs w f (analyse P) (s_name o) (sl (s_loc o)) col = Some l /\
+            define_at w f (analyse P) (s_name o) (sl (s_loc o)) col = Some [(f, d)] /\
+            forall r, In r l ->
+              exists o', In o' (bind_file P) /\ r = (f, s_loc o') /\ s_bind o' = BLocal d /\ s_name o' = s_name o /\
+                         forall col', (sc (s_loc o') <= col' <= ec (s_loc o'))%Z ->
+                           define_at w f (analyse P) (s_name o') (sl (s_loc o')) col' = Some [(f, d)].
+Proof. exact c12_clause1_model. Qed.
+Print Assumptions C12_clause1_model_partial.
+
+(* clause 2, model level: the occurrence is among the references asked at any cursor column of its declaration *)
+Theorem C12_clause2_model_partial : forall W P w f o d,
+  bind_guard W P = true -> In o (bind_file P) -> s_bind o = BLocal d -> var_guard P d = true ->
+  exists sd, In sd (bind_file P) /\ is_decl (s_role sd) = true /\ s_loc sd = d /\ s_name sd = s_name o /\
+             s_bind sd = BLocal d /\
+    forall col', (sc d <= col' <= ec d)%Z ->
+      exists l', references_at MRefs w f (analyse P) (s_name o) (sl d) col' = Some l' /\ In (f, s_loc o) l'.
+Proof. exact c12_clause2_model. Qed.
+Print Assumptions C12_clause2_model_partial.
+
+(* request level: definition on a local answers exactly Lua's declaration (C05 lifted to run_define) *)
+Theorem C12_define_local_request : forall W files f line col o d,
+  occ_request_guard W files f o = true -> spec_occ files f line col = Some o -> s_bind o = BLocal d ->
+  run_define files f line col = ALocs [(f, d)].
+Proof. exact define_request_closed_occ. Qed.
+Print Assumptions C12_define_local_request.
+
+(* request level = clauses 1 and 2 of C12_full restricted to local variables and the guard: any workspace, any file f
+   of it, any cursor (every column, both ends) on an occurrence o that Lua binds to a local declaration d *)
+Theorem C12_clauses_1_2_partial : forall W files f line col o d,
+  var_request_guard W files f d = true -> spec_occ files f line col = Some o -> s_bind o = BLocal d ->
+  c12_clause1 files f line col = true /\ c12_clause2 files f line col (s_loc o) = true.
+Proof. exact c12_clauses_request_var. Qed.
+Print Assumptions C12_clauses_1_2_partial.
+
+(* the other two features at the same cursor: highlight answers the same set (a local lives in one file), hover says
+   `local` *)
+Theorem C12_highlight_local_request : forall W files f line col o d l,
+  occ_request_guard W files f o = true -> spec_occ files f line col = Some o -> s_bind o = BLocal d ->
+  run_refs files MHighlight f line col = ALocs l -> same_locs l (spec_refs (spec_ws files) f o) = true.
+Proof. exact (refs_request_closed_occ MHighlight). Qed.
+Print Assumptions C12_highlight_local_request.
+
+Theorem C12_hover_local_request : forall W files f line col o d,
+  occ_request_guard W files f o = true -> spec_occ files f line col = Some o -> s_bind o = BLocal d ->
+  run_hover files f line col = HLocal.
+Proof. exact hover_request_local_occ. Qed.
+Print Assumptions C12_hover_local_request.
+
+(* all four clauses = the conclusion of C12_full, under the guard *)
+Theorem C12_all_clauses_partial : forall W files f line col o d,
+  NoDup (map fst files) ->
+  var_request_guard W files f d = true -> spec_occ files f line col = Some o -> s_bind o = BLocal d ->
+  c12_clause1 files f line col = true /\ c12_clause2 files f line col (s_loc o) = true /\
+  c12_clause3 files f line col /\ c12_clause4 files f line col.
+Proof. exact c12_all_clauses_request. Qed.
+Print Assumptions C12_all_clauses_partial.
+
+(* whole-file guard *)
+Theorem C12_clauses_1_2_partial_file : forall W files f line col o d,
+  request_guard W files f = true -> spec_occ files f line col = Some o -> s_bind o = BLocal d ->
+  c12_clause1 files f line col = true /\ c12_clause2 files f line col (s_loc o) = true.
+Proof. exact c12_clauses_request. Qed.
+Print Assumptions C12_clauses_1_2_partial_file.
+
+(* non-vacuity: C05's example programs satisfy the whole-file guard, alone and as a two-file workspace (25 of 33 and
+   36 of 43 occurrences bound to locals); the witness programs of B1, B4 and doc_end are rejected; the per-variable
+   guard separates the two x of the B1 witness *)
+Example C12_closed_guard_nonvacuous :
+  request_guard 1000 [(a_lua, src_ok)] a_lua = true /\ request_guard 1000 [(a_lua, src_core)] a_lua = true /\
+  request_guard 1000 [(a_lua, src_ok); (b_lua, src_core)] b_lua = true /\
+  length (filter (fun s => match s_bind s with BLocal _ => true | BGlobal _ => false end) (bind_file (chunk_of src_core))) = 36%nat /\
+  request_guard 1000 w_B1_own_initialiser a_lua = false /\ request_guard 1000 w_B4_forward_decl a_lua = false /\
+  request_guard 1000 [(a_lua, src_doc_end)] a_lua = false /\
+  var_request_guard 1000 w_B1_own_initialiser a_lua (mk_loc 2 6 2 7) = true /\
+  var_request_guard 1000 w_B1_own_initialiser a_lua (mk_loc 1 6 1 7) = false.
+Proof. vm_compute. repeat split; reflexivity. Qed.
+
+(* ================================================================== wide fragment (agent wide-fragment)
+   see Properties/C05.v: in the wide request models hover's `local` flag is still the kind of the resolved target and a
+   local target is what definition returns (clause 4 at model level, now also for identifiers written `_G.name`, for
+   which neither feature can answer with a local); decided on wide programs by the leg c12.wide. *)
+From LH Require Import Model.ResolveWide Spec.LuaScopeWide Proofs.WideNarrow Proofs.WideRun.
+
+Theorem C12_wide_hover_flag : forall g w f fi n line col,
+  hover_at_wide g w f fi n line col = HLocal <-> exists v, resolve_at_wide g w f fi n line col = TLocal v.
+Proof. exact hover_local_iff_wide. Qed.
+Print Assumptions C12_wide_hover_flag.
+
+Theorem C12_wide_define_of_local : forall g w f fi n line col v,
+  resolve_at_wide g w f fi n line col = TLocal v -> define_at_wide g w f fi n line col = Some [(f, v_loc v)].
+Proof. exact define_of_local_wide. Qed.
+Print Assumptions C12_wide_define_of_local.
+
+Theorem C12_G_hover_never_local : forall w f fi n line col, hover_at_wide true w f fi n line col <> HLocal.
+Proof. exact hover_G_never_local. Qed.
+Print Assumptions C12_G_hover_never_local.
+
+Theorem C12_wide_hover_narrow : forall files f line0 col,
+  all_in_fragment files = true -> all_text_ok files = true ->
+  hovers_agree (run_hover_wide files f line0 col) (run_hover files f line0 col).
+Proof. exact run_hover_wide_narrow. Qed.
+Print Assumptions C12_wide_hover_narrow.
+
+Example C12_wide_witness :
+  run_hover_wide w_wide a_lua 2 7 = HGlobal /\ run_define_wide w_wide a_lua 2 7 = ALocs [g_def] /\
+  run_hover_wide w_wide a_lua 2 10 = HLocal /\ run_define_wide w_wide a_lua 2 10 = ALocs [l_def].
+Proof. vm_compute. repeat split; reflexivity. Qed.
